@@ -208,6 +208,7 @@ def shards(tier, seed):
     for i in range(13):
         out.append(('boundary', i))
     out.append(('unary',))
+    out.append(('ambient',))
     out.append(('bigshift',))
     nr = 16 if tier == 'quick' else 640
     for i in range(nr):
@@ -256,6 +257,9 @@ def run_shard(shard, tier, seed):
                         if r is not False:
                             sh.case((op, tname(ca), x, tname(cb), y), cls='b:%s/%s' % (pair_class(ca, cb), op))
             sh.sample({'kind': 'boundary', 'types': [tname(ca), tname(cb)], 'values': [bset(ca)[:4], bset(cb)[:4]]}, 2)
+    elif kind == 'ambient':
+        from vf.checks.c05 import ambient_contracts
+        ambient_contracts(sh, 'modint')
     elif kind == 'unary':
         for c in cls:
             vals = set(bset(c))
